@@ -186,7 +186,8 @@ pub fn failure_replay(f: &Failure, exec: &ExecOpts) -> J {
         "steps_short": f.steps.iter().map(|s| s.short()).collect::<Vec<_>>(),
         "seed": f.seed,
         "exec": {"fresh_battery": exec.fresh_battery, "versioned": exec.versioned, "vlog_invariant": exec.vlog_invariant,
-                 "readers_after_placement": exec.readers_after_placement, "verify_checkpoint": exec.verify_checkpoint},
+                 "readers_after_placement": exec.readers_after_placement, "verify_checkpoint": exec.verify_checkpoint,
+                 "reopen_mutate": exec.reopen_mutate},
         "violation": {"step": f.violation.step, "class": f.violation.class, "what": f.violation.what},
     })
 }
@@ -229,6 +230,7 @@ pub fn replay_e1(j: &J) -> Option<Violation> {
         vlog_invariant: e["vlog_invariant"].as_bool().unwrap_or(false),
         readers_after_placement: e["readers_after_placement"].as_bool().unwrap_or(true),
         verify_checkpoint: e["verify_checkpoint"].as_bool().unwrap_or(false),
+        reopen_mutate: e["reopen_mutate"].as_bool().unwrap_or(false),
     };
     let dir = e1::scratch_root().join("replay");
     let (_, v) = e1::run_history(&cfg, &keys, &steps, &exec, &dir, r["seed"].as_u64().unwrap_or(0));
